@@ -4,47 +4,47 @@
 // Failing check: assertion "attempt to add with overflow"
 #[test]
 fn kani_concrete_playback_mapping_delta_k3_9805386861611631968() {
-    let concrete_vals: Vec<Vec<u8>> = vec![
+    let concrete_vals: std::vec::Vec<std::vec::Vec<u8>> = std::vec![
         // 3ul
-        vec![3, 0, 0, 0, 0, 0, 0, 0],
+        std::vec![3, 0, 0, 0, 0, 0, 0, 0],
         // 4611686018427387903ul
-        vec![255, 255, 255, 255, 255, 255, 255, 63],
+        std::vec![255, 255, 255, 255, 255, 255, 255, 63],
         // 4611685949707911168ul
-        vec![0, 0, 0, 0, 240, 255, 255, 63],
+        std::vec![0, 0, 0, 0, 240, 255, 255, 63],
         // 2305843009213693952ul
-        vec![0, 0, 0, 0, 0, 0, 0, 32],
+        std::vec![0, 0, 0, 0, 0, 0, 0, 32],
         // 2305843009213693953ul
-        vec![1, 0, 0, 0, 0, 0, 0, 32],
+        std::vec![1, 0, 0, 0, 0, 0, 0, 32],
         // 0
-        vec![0],
+        std::vec![0],
         // 5ul
-        vec![5, 0, 0, 0, 0, 0, 0, 0],
+        std::vec![5, 0, 0, 0, 0, 0, 0, 0],
         // 3ul
-        vec![3, 0, 0, 0, 0, 0, 0, 0],
+        std::vec![3, 0, 0, 0, 0, 0, 0, 0],
         // 70866960320ul
-        vec![192, 255, 255, 127, 16, 0, 0, 0],
+        std::vec![192, 255, 255, 127, 16, 0, 0, 0],
         // 288230376151711740ul
-        vec![252, 255, 255, 255, 255, 255, 255, 3],
+        std::vec![252, 255, 255, 255, 255, 255, 255, 3],
         // 1ul
-        vec![1, 0, 0, 0, 0, 0, 0, 0],
+        std::vec![1, 0, 0, 0, 0, 0, 0, 0],
         // 1
-        vec![1],
+        std::vec![1],
         // 2305843009213693956ul
-        vec![4, 0, 0, 0, 0, 0, 0, 32],
+        std::vec![4, 0, 0, 0, 0, 0, 0, 32],
         // 6ul
-        vec![6, 0, 0, 0, 0, 0, 0, 0],
+        std::vec![6, 0, 0, 0, 0, 0, 0, 0],
         // 4611686018427387903ul
-        vec![255, 255, 255, 255, 255, 255, 255, 63],
+        std::vec![255, 255, 255, 255, 255, 255, 255, 63],
         // 4611686018427387903ul
-        vec![255, 255, 255, 255, 255, 255, 255, 63],
+        std::vec![255, 255, 255, 255, 255, 255, 255, 63],
         // 1152921504606846975ul
-        vec![255, 255, 255, 255, 255, 255, 255, 15],
+        std::vec![255, 255, 255, 255, 255, 255, 255, 15],
         // 2305843009213693952ul
-        vec![0, 0, 0, 0, 0, 0, 0, 32],
+        std::vec![0, 0, 0, 0, 0, 0, 0, 32],
         // 1
-        vec![1],
+        std::vec![1],
         // 1152921504606846979ul
-        vec![3, 0, 0, 0, 0, 0, 0, 16],
+        std::vec![3, 0, 0, 0, 0, 0, 0, 16],
     ];
     kani::concrete_playback_run(concrete_vals, mapping_delta_k3);
 }
